@@ -509,7 +509,12 @@ class DFlags(Plugin):
                         # about the array then (glibc leaves it without a terminator); only a non-negative result means a terminated string
                         done = pl[:3] + (True,) + pl[4:]
                         return [(done, [(lambda r: conv_success_term("neg", r), True)]), (pl, [(lambda r: conv_success_term("neg", r), False)])]
-                    if name in ("fgets", "asctime_r", "ctime_r", "strerror_r", "snprintf", "vsnprintf", "strcpy", "strncat", "strcat"):
+                    if name in ("fgets", "asctime_r", "ctime_r"):
+                        # these return NULL when they fail (end of file without data, read error, unrepresentable time): the array is then
+                        # unchanged or indeterminate (C11 7.21.7.2/3) -- only a non-null result means a terminated string
+                        done = pl[:3] + (True,) + pl[4:]
+                        return [(done, [(lambda r: conv_success_term("ptr", r), True)]), (pl, [(lambda r: conv_success_term("ptr", r), False)])]
+                    if name in ("strerror_r", "snprintf", "vsnprintf", "strcpy", "strncat", "strcat"):
                         pl = pl[:3] + (True,) + pl[4:]      # libc routines that terminate what they write
             return [(pl, [])]
         return [(pl, [])]
